@@ -47,6 +47,9 @@ CHECKS = {
  "C11": ("exploration", "differential property test against io::Cursor over refimpl-encoded layer streams (exhaustive length sweep on scaled constants + random seek/read histories)",
          "Layer streams of every plaintext length (every residue modulo chunk and block on the scaled build, boundary windows on the production build) are encoded by an independent implementation of the format; the library's layer readers, stacked as mlar does, must return the same positions and bytes as an in-memory cursor for generated seek/read histories within [0, L].",
          "Trusts refimpl (anchored to FORMAT.md by a self-test on samples/archive_v1.mla), the aes-gcm / brotli / x25519-dalek / hkdf crates.", "DESIGN.md section 4 C11"),
+ "C16": ("exploration", "CLI property test in a snapshotted sandbox: generated member-name sets from a path grammar x extraction forms x output arguments, before/after filesystem snapshot as oracle",
+         "`mlar extract` (built from the tree) runs inside a scratch sandbox; a recursive snapshot (path, type, size, SHA-256, link target) of everything outside the output directory, and the listing of the sandbox's parent, must be unchanged whatever the member names are ('..' chains, absolute paths into the sandbox, empty / 256-byte / unicode components, a symlink already present in the output directory); benign representable member sets must be extracted completely with exit status 0.",
+         "Filesystem-imposed failures (256-byte components, NUL, prefix-related members) exclude a set from the completeness half only. Empty directories created through a pre-existing symlink of the output directory are counted, not reported (outside the statement's wording, DESIGN.md section 9).", "DESIGN.md section 4 C16"),
  "C19": ("exploration", "differential property test of the mlar binary against a harness re-implementation of the README algorithm (own ChaCha20 block function, HKDF-SHA512) over generated seeds, parent key forms and path lists",
          "For generated seeds (unicode, empty, long), parent keys (unclamped / clamped X25519 DER, Ed25519 DER, PEM) and path lists (1..4, repeated, empty), the files written by `mlar keygen --seed` and `mlar keyderive` must equal the documented algorithm, be reproducible, compose path by path, and the .pub file must match the private file.",
          "Open finding keyderive-ikm-not-clamped is reported as KNOWN-FINDING and only suppresses outputs that equal the unclamped-IKM variant for parents not in clamped form. Trusts sha2, hkdf, x25519-dalek as primitives.", "DESIGN.md section 4 C19"),
